@@ -51,7 +51,9 @@ static int check(const Case& c, uint64_t* klass_out = nullptr) {
   ref::Result rr = ref::parse(input, base ? &rb : nullptr, ru, &tr);
   if (rr == ref::RES_UNSUPPORTED) { n_unsupported++; return -1; }
   bool rok = rr == ref::RES_OK;
-  if (klass_out) *klass_out = vh::mix(vh::mix(tr.states, (uint64_t)ru.host.kind), rok);
+  // non-trivial (rule): the reference parsed it, or failed after the scheme states; 0 = trivial, no class
+  const bool nontrivial = rok || (tr.states & ~((1u << ref::SCHEME_START) | (1u << ref::SCHEME) | (1u << ref::NO_SCHEME))) != 0;
+  if (klass_out) *klass_out = nontrivial ? (vh::mix(vh::mix(tr.states, (uint64_t)ru.host.kind), rok) | 1) : 0;
   if (oka != rok) { vh::violation("success-mismatch:aggregator", c, std::string("ref=") + (rok ? "ok href=" + ru.href() : "failure") + " ada=" + (oka ? "ok href=" + sa.href : "failure")); return rok; }
   if (oku != rok) { vh::violation("success-mismatch:url", c, std::string("ref=") + (rok ? "ok href=" + ru.href() : "failure") + " ada=" + (oku ? "ok href=" + su.href : "failure")); return rok; }
   if (!rok) { n_fail++; return 0; }
@@ -103,7 +105,7 @@ int main(int argc, char** argv) {
     pool.push_back(rows[i][0]);
     if ((int)(i % ctx.nworkers) != ctx.worker) continue;
     uint64_t k; Case c{rows[i][0], rows[i][1]};
-    if (check(c, &k) >= 0) { vh::klass(k); vh::count("corpus_cases"); }
+    if (check(c, &k) >= 0) { if (k) vh::klass(k); vh::count("corpus_cases"); }
   }
   // --- byte sweep: every byte value at offsets 0..40 of host/path/query/fragment of 4 skeletons
   {
@@ -119,7 +121,7 @@ int main(int argc, char** argv) {
       if (sk == 3) { if (comp == 0) s += body; else if (comp == 1) s += "/" + body; else if (comp == 2) s += "x?" + body; else s += "x#" + body; }
       else { if (comp == 0) s += body + "/p"; else if (comp == 1) s += "h/" + body; else if (comp == 2) s += "h/p?" + body; else s += "h/p#" + body; }
       uint64_t k; Case c{s, "\x01NULL"};
-      if (check(c, &k) >= 0) { vh::klass(k); vh::count("sweep_cases"); }
+      if (check(c, &k) >= 0) { if (k) vh::klass(k); vh::count("sweep_cases"); }
     }
   }
   // --- generated
@@ -136,7 +138,7 @@ int main(int argc, char** argv) {
     }
     uint64_t k = 0; Case c{in, base};
     int res = check(c, &k);
-    if (res >= 0) { vh::klass(vh::mix(k, (uint64_t)info.host_kind + 1)); }
+    if (res >= 0 && k) { vh::klass(vh::mix(k, (uint64_t)info.host_kind + 1)); }
     if (res == 1) {
       if (genbases.size() < 64 && r.chance(1, 8) && vh::is_null_field(base)) genbases.push_back(in);
       if (vh::st().samples.size() < 8 && r.chance(1, 50)) vh::sample(vh::show(c));
